@@ -131,9 +131,14 @@ package act
 //@ ghostheap qlen(q lib.QueueMPSC) int64
 //@ ghostheap spawnFail() int64
 
+// withWorker(m): the mailbox message object m was accepted by another process's queue (it is that
+// process's now, and will be recycled by it). A message popped from one's own mailbox is one's own
+// (A-MPSC ownership, assumed in Pop); recycling a message that is with a worker would hand the worker
+// a blank or foreign message.
+//@ ghostheap withWorker(m *gen.MailboxMessage) bool
 //@ iface gen.Process.Forward
-//@   modifies fwd(message)
-//@   ensures fwd(message) == old(fwd(message)) + (result == nil ? 1 : 0)
+//@   modifies fwd(message), withWorker(message)
+//@   ensures fwd(message) == old(fwd(message)) + (result == nil ? 1 : 0) && withWorker(message) == (old(withWorker(message)) || result == nil)
 //@ iface gen.Process.Spawn
 //@   modifies spawnFail()
 //@   ensures spawnFail() == old(spawnFail()) + (result.1 != nil ? 1 : 0)
@@ -148,6 +153,7 @@ package act
 //@ iface lib.QueueMPSC.Pop
 //@   modifies qlen(self), emptyFlag(self)
 //@   ensures result.1 == (old(qlen(self)) > 0) && qlen(self) == old(qlen(self)) - (result.1 ? 1 : 0) && emptyFlag(self) == !result.1 && (ringOfPIDs(self) && result.1 ==> typeis(result.0, gen.PID))
+//@   ensures result.1 && typeis(result.0, *gen.MailboxMessage) ==> !withWorker(result.0.(*gen.MailboxMessage))
 //@ iface lib.QueueMPSC.Push
 //@   modifies qlen(self)
 //@   ensures qlen(self) == old(qlen(self)) + 1
@@ -155,16 +161,17 @@ package act
 //@ func (p *Pool) forward
 //@   props C19
 //@   mode int
-//@   modifies emptyFlag, qlen, fwd(message), spawnFail(), p.forwarded, p.restarts, p.unhandled
+//@   modifies emptyFlag, qlen, fwd(message), withWorker(message), spawnFail(), p.forwarded, p.restarts, p.unhandled
 //@   requires [ring] p.pool != nil
 //@   assume message != nil && ringOfPIDs(p.pool) && qlen(p.pool) < 4611686018427387904 && p.forwarded < 9223372036854775807 && p.restarts < 9223372036854775807 && p.unhandled < 9223372036854775807
-//@   loop 1 invariant [not_yet_delivered] fwd(message) == old(fwd(message)) && p.unhandled == old(p.unhandled) && 0 <= i && i <= l && l == old(qlen(p.pool))
+//@   loop 1 invariant [not_yet_delivered] withWorker(message) == old(withWorker(message)) && fwd(message) == old(fwd(message)) && p.unhandled == old(p.unhandled) && 0 <= i && i <= l && l == old(qlen(p.pool))
 //@   loop 1 invariant [ring_kept] qlen(p.pool) == old(qlen(p.pool)) - (spawnFail() - old(spawnFail())) && spawnFail() >= old(spawnFail()) && spawnFail() - old(spawnFail()) <= i
 //@   at call Forward assert [same_message_normal_priority] message == old(message) && priority == gen.MessagePriorityNormal
 //@   ensures [at_most_one_worker] fwd(message) <= old(fwd(message)) + 1
 //@   ensures [dropped_is_counted] fwd(message) == old(fwd(message)) ==> p.unhandled == old(p.unhandled) + 1 || p.restarts == old(p.restarts) + 1
 //@   ensures [delivered_is_not_counted_dropped] fwd(message) == old(fwd(message)) + 1 ==> p.unhandled == old(p.unhandled)
 //@   ensures [ring_size] qlen(p.pool) == old(qlen(p.pool)) - (spawnFail() - old(spawnFail()))
+//@   ensures [with_a_worker_iff_delivered] withWorker(message) == (old(withWorker(message)) || fwd(message) == old(fwd(message)) + 1)
 
 // C03: dequeue discipline of the behaviour run loops: a queue of a lower class is popped only when,
 // since the last callback, every queue of a higher class has been seen empty (Urgent > System >
@@ -195,6 +202,7 @@ package act
 //@   modifies emptyFlag
 //@ func gen.ReleaseMailboxMessage
 //@   trusted
+//@   requires [never_recycle_a_message_that_is_with_a_worker] m == nil || !withWorker(m)
 //@ func (a *Actor) ProcessRun
 //@   props C03 C07
 //@   mode int
@@ -202,6 +210,8 @@ package act
 //@   may_panic
 //@   requires [mailbox] mboxDistinct(a.mailbox)
 //@   loop 1 invariant [mailbox1] mboxDistinct(a.mailbox)
+//@   loop 1 invariant [own_message] message == nil || !withWorker(message)
+//@   loop 2 invariant [own_message_while_retrying] message == nil || !withWorker(message)
 //@   loop 2 invariant [mailbox2] mboxDistinct(a.mailbox)
 //@   at call Pop assert [strict_priority] (self == a.mailbox.System ==> emptyFlag(a.mailbox.Urgent)) && (self == a.mailbox.Main ==> emptyFlag(a.mailbox.Urgent) && emptyFlag(a.mailbox.System)) && (self == a.mailbox.Log ==> emptyFlag(a.mailbox.Urgent) && emptyFlag(a.mailbox.System) && emptyFlag(a.mailbox.Main))
 //@   at call HandleCall assert [request_presented_with_its_own_ref] arg0 == message.From && arg1 == message.Ref && arg2 == message.Message
@@ -223,7 +233,7 @@ package act
 //@   no_safety
 //@   may_panic
 //@   requires [mailbox] mboxDistinct(p.mailbox) && p.pool != nil
-//@   loop 1 invariant [mailbox1] mboxDistinct(p.mailbox) && p.pool != nil
+//@   loop 1 invariant [mailbox1] mboxDistinct(p.mailbox) && p.pool != nil && (message == nil || !withWorker(message))
 //@   loop 2 invariant [mailbox2] mboxDistinct(p.mailbox) && p.pool != nil
 //@   at call Pop assert [strict_priority] (self == p.mailbox.System ==> emptyFlag(p.mailbox.Urgent)) && (self == p.mailbox.Main ==> emptyFlag(p.mailbox.Urgent) && emptyFlag(p.mailbox.System)) && (self == p.mailbox.Log ==> emptyFlag(p.mailbox.Urgent) && emptyFlag(p.mailbox.System) && emptyFlag(p.mailbox.Main))
 //@   at call forward assert [only_regular_traffic_is_forwarded] message.Type < gen.MailboxMessageTypeExit
